@@ -330,6 +330,10 @@ func Decrypt(priv *PrivateKey, data []byte, mode int) ([]byte, error) {
 	if len(data) < 1+64+32 {
 		return nil, errors.New("Decrypt: ciphertext too short")
 	}
+	if data[0] != 0x04 {
+		// C1 is an uncompressed point (GM/T 0003.4); Encrypt writes nothing else
+		return nil, errors.New("Decrypt: C1 is not in uncompressed form")
+	}
 	switch mode {
 	case C1C3C2:
 		data = data[1:]
